@@ -542,3 +542,58 @@ pub fn batch_roundtrip(start: u64, e0: (bool, u8, u8), e1: (bool, u8, u8), cut: 
     core::mem::forget(b);
     r
 }
+
+/// Plain description of a table file: (number, size, (smallest user key, seq), (largest user key, seq)).
+pub type VFile = (u64, u64, (Vec<u8>, u64), (Vec<u8>, u64));
+
+fn vfile(f: &VFile) -> Arc<FileMetadata> {
+    let mut m = FileMetadata::new(f.0);
+    m.set_file_size(f.1);
+    m.set_smallest_key(Some(InternalKey::new(f.2 .0.clone(), f.2 .1, Operation::Put)));
+    m.set_largest_key(Some(InternalKey::new(f.3 .0.clone(), f.3 .1, Operation::Put)));
+    Arc::new(m)
+}
+
+/// `versioning::utils::find_file_with_upper_bound_range`.
+pub fn find_file(files: &[VFile], target: &(Vec<u8>, u64)) -> Option<usize> {
+    let v: Vec<Arc<FileMetadata>> = files.iter().map(vfile).collect();
+    crate::versioning::utils::find_file_with_upper_bound_range(
+        &v,
+        &InternalKey::new(target.0.clone(), target.1, Operation::Put),
+    )
+}
+
+/// `FileMetadataBySmallestKey::compare` as -1 / 0 / 1.
+pub fn fm_compare(a: &VFile, b: &VFile) -> i8 {
+    use crate::utils::comparator::Comparator;
+    crate::versioning::file_metadata::FileMetadataBySmallestKey::compare(&vfile(a), &vfile(b)) as i8
+}
+
+/// A version holding the given files per level (no table cache use).
+fn version_with(options: &DbOptions, levels: &[(usize, Vec<VFile>)]) -> (Version, Arc<TableCache>) {
+    let tc = Arc::new(TableCache::new(options.clone(), 2));
+    let mut v = Version::new(options.clone(), &tc, 0, 0);
+    for (level, files) in levels {
+        for f in files {
+            v.files[*level].push(vfile(f));
+        }
+    }
+    (v, tc)
+}
+
+/// `Version::get_overlapping_compaction_inputs`; returns the file numbers in result order.
+pub fn overlapping_inputs_full(
+    options: DbOptions,
+    level: usize,
+    files: &[VFile],
+    begin: Option<(Vec<u8>, u64)>,
+    end: Option<(Vec<u8>, u64)>,
+) -> Vec<u64> {
+    let (v, _tc) = version_with(&options, &[(level, files.to_vec())]);
+    let b = begin.map(|x| InternalKey::new(x.0, x.1, Operation::Put));
+    let e = end.map(|x| InternalKey::new(x.0, x.1, Operation::Put));
+    v.get_overlapping_compaction_inputs(level, b.as_ref()..e.as_ref())
+        .iter()
+        .map(|f| f.file_number())
+        .collect()
+}
